@@ -380,6 +380,36 @@ def unit_rescale(S):
            function="lerax.wrapper:RescaleObservation.__init__", what="RescaleObservation: func(inner low) = -1, func(inner high) = 1; advertised Box(-1,1)")
 
 
+def native_timelimit_replay(model):
+    """R1: TimeLimit(N) over a deterministic generic environment (pseudo-random terminal / truncate flags) driven through the functional API: for every step j the truncate flag must be
+    inner.truncate or (j >= N), whatever the inner terminal flag says - including histories whose termination coincides with step N (all four flag combinations are forced)."""
+    from lvc import opaque
+    old_ik, old_ov = opaque.IGNORE_KEYS, dict(opaque.OVERRIDES)
+    opaque.IGNORE_KEYS = True
+    try:
+        for N in (1, 2, 3, 5):
+            for term_at_N in (False, True):
+                for inner_trunc in (False, True):
+                    E = W.TimeLimit(inner_env(), N)
+                    with jax.disable_jit():
+                        s = E.initial(key=jax.random.key(0))
+                        for j in range(1, N + 3):
+                            s = E.transition(s, jnp.zeros((2,)), key=jax.random.key(j))
+                            opaque.OVERRIDES["env.terminal"] = [np.asarray(term_at_N and j == N)]
+                            opaque.OVERRIDES["env.truncate"] = [np.asarray(inner_trunc and j == N - 1)]
+                            got = bool(E.truncate(s))
+                            exp = (inner_trunc and j == N - 1) or j >= N
+                            if got != exp or int(s.step_count) != j:
+                                return dict(reproduced=True, route="R1 (real TimeLimit over a generic environment with forced inner flags, functional API, eager)",
+                                            inputs=dict(N=N, step=j, inner_terminal_at_this_step=bool(term_at_N and j == N), inner_truncate_at_this_step=bool(inner_trunc and j == N - 1)),
+                                            observed=dict(truncate=got, expected=exp, step_count=int(s.step_count)))
+        return dict(reproduced=False, note="N in {1,2,3,5} x inner terminal at step N x inner truncation: truncation raised exactly from step N on (or when the inner env truncates)")
+    finally:
+        opaque.IGNORE_KEYS = old_ik
+        opaque.OVERRIDES.clear()
+        opaque.OVERRIDES.update(old_ov)
+
+
 def unit_timelimit(S):
     """TimeLimit(N): ghost c = number of transitions since initial.  Inv: step_count = c.  truncate(s) = inner.truncate(s.env_state) or c >= N."""
     fn = "lerax.wrapper.misc:TimeLimit"
@@ -393,14 +423,14 @@ def unit_timelimit(S):
     a = sym(ctx, "a", a_s)
     k, kc = kit.key_input("key")
     ns = run(ctx, lambda e, s_, a_, kk: e.transition(s_, a_, key=kk), env_in, s, a, k)
-    S.prove("TimeLimit.transition/count-increments", ctx, ir.seq(ns.step_count.scalar(), s.step_count.scalar() + 1), function=fn + ".transition",
+    S.prove("TimeLimit.transition/count-increments", ctx, ir.seq(ns.step_count.scalar(), s.step_count.scalar() + 1), replay=native_timelimit_replay, function=fn + ".transition",
             what="every transition advances the episode clock by exactly one")
     tr = run(ctx, lambda e, s_: e.truncate(s_), env_in, s)
     itr = run(ctx, lambda e, s_: e.env.truncate(s_.env_state), env_in, s)
-    S.prove("TimeLimit.truncate/exact", ctx, tr.scalar() == z3.Or(itr.scalar(), s.step_count.scalar() >= N), function=fn + ".truncate",
+    S.prove("TimeLimit.truncate/exact", ctx, tr.scalar() == z3.Or(itr.scalar(), s.step_count.scalar() >= N), replay=native_timelimit_replay, function=fn + ".truncate",
             what="truncate(s) = inner.truncate(s.env_state) or step_count >= N")
     s0 = run(ctx, lambda e, kk: e.initial(key=kk), env_in, k)
-    S.prove("TimeLimit.initial/count-zero", ctx, ir.seq(s0.step_count.scalar(), 0), function=fn + ".initial", what="the clock restarts at 0 on reset")
+    S.prove("TimeLimit.initial/count-zero", ctx, ir.seq(s0.step_count.scalar(), 0), replay=native_timelimit_replay, function=fn + ".initial", what="the clock restarts at 0 on reset")
     # lemma over the three contracts (inner env never truncates): along any history the first truncated state is the one after exactly N transitions
     c, j = z3.Ints("c j")
     cnt = z3.Function("count", z3.IntSort(), z3.IntSort())  # count after j transitions
